@@ -4,7 +4,7 @@ import random as _r
 from pv import common, gen, detsched
 
 RULE = ("seeded binary DCOPs (2-6 vars, domains 1-4, all shapes incl. unconstrained variables and duplicate "
-        "scopes, no variable costs, declared initial values in half of the instances, palettes incl. integers around 2^62 whose sums exceed 64 bits; a quarter of the runs push every message through the json wire format); costs >= 0 in min mode (branch-and-bound on partial costs presupposes "
+        "scopes, variable cost functions in 30 % of the instances, declared initial values in half of the instances, palettes incl. integers around 2^62 whose sums exceed 64 bits; a quarter of the runs push every message through the json wire format); costs >= 0 in min mode (branch-and-bound on partial costs presupposes "
         "monotone accumulation), arbitrary sign in max mode; each instance under random start orders / FIFO "
         "schedules; non-trivial = >=2 variables, >=1 binary constraint and >=1 backward message; distinct by "
         "hash(instance, schedule)")
@@ -68,8 +68,19 @@ def run_one(case, sched_seed, bias=None, choices=None, wire=False):
             got = gen.total_cost(case, asg)
             res["cost"], res["optimum"] = got, best
             if not gen.close(got, best):
-                P.append(("suboptimal", "SyncBB %s cost %r != optimum %r, assignment %r" % (
-                    case["objective"], got, best, asg), None))
+                key = "suboptimal"
+                if any(v.get("costs") for v in case["variables"]):
+                    # mechanism of the known finding: the assignment is optimal for the constraints alone, the cost
+                    # functions of the variables were left out of the search
+                    import copy
+
+                    bare = copy.deepcopy(case)
+                    for v in bare["variables"]:
+                        v["costs"] = None
+                    if gen.close(gen.total_cost(bare, asg), gen.brute_force(bare)[0]):
+                        key = "variable-costs-ignored"
+                P.append((key, "SyncBB %s cost %r != optimum %r, assignment %r%s" % (
+                    case["objective"], got, best, asg, " (optimal for the constraints without the variables' own costs)" if key != "suboptimal" else ""), None))
     res["trace"] = list(pool.trace)
     res["delivered"] = pool.delivered
     return res, pool
@@ -79,7 +90,7 @@ def make_case(rng, tier):
     objective = rng.choice(["min", "max"])
     pal = ("ties", "distinct", "float", "hard", "int62") if objective == "min" else ("ties", "distinct", "float", "neg", "hard", "int62")
     case = gen.gen_case(rng, min_vars=1, max_vars=6 if tier == "thorough" else 5, max_dom=4 if rng.random() < 0.3 else 3,
-                        palettes=pal, objective=objective, binary_only=True, var_costs=False, max_space=1500,
+                        palettes=pal, objective=objective, binary_only=True, var_costs=rng.random() < 0.3, max_space=1500,
                         initial=rng.random() < 0.5)
     return case
 
